@@ -6,8 +6,11 @@ import (
 	"context"
 	"encoding/json"
 	"fmt"
+	"io"
+	"log/slog"
 	"net/http"
 	"net/http/httptest"
+	"net/url"
 	"os"
 	"path/filepath"
 	"strings"
@@ -16,26 +19,31 @@ import (
 
 	"verif/vlib"
 
+	"github.com/a-h/templ/cmd/templ/generatecmd/proxy"
 	"github.com/a-h/templ/cmd/templ/generatecmd/sse"
 	"github.com/a-h/templ/vsched"
 )
 
 type rw struct {
 	h        http.Header
-	buf      strings.Builder
-	stall    bool // block while writing a reload event until released
+	buf      strings.Builder // what the browser has received: written AND flushed
+	pending  strings.Builder // written, still in the server's buffer
+	stall    bool            // block while writing a reload event until released
 	released *bool
 }
 
 func (w *rw) Header() http.Header { return w.h }
 func (w *rw) WriteHeader(int)     {}
-func (w *rw) Flush()              {}
+func (w *rw) Flush() {
+	w.buf.WriteString(w.pending.String())
+	w.pending.Reset()
+}
 func (w *rw) Write(p []byte) (int, error) {
 	vsched.Yield("write")
 	if w.stall && strings.Contains(string(p), "reload") {
 		vsched.WaitUntil("stalled-reader", func() bool { return *w.released })
 	}
-	w.buf.Write(p)
+	w.pending.Write(p)
 	return len(p), nil
 }
 func (w *rw) reloads() int { return strings.Count(w.buf.String(), "data: reload") }
@@ -50,13 +58,33 @@ type scenario struct {
 	late      bool // one more client connects concurrently with the broadcast
 	churn     bool // before the broadcast: client0 disconnects, then a new client connects (sequentially)
 	extraPing int
+	proxyLog  string // "" = the sse handler directly; "info" / "debug" = through the live-reload proxy's handler with that log level
 }
+
+// broadcaster is the handler under test: sse.Handler itself, or the proxy handler that mounts it.
+type broadcaster interface {
+	ServeHTTP(http.ResponseWriter, *http.Request)
+	Send(eventType, data string)
+}
+
+type viaProxy struct{ p *proxy.Handler }
+
+func (v viaProxy) ServeHTTP(w http.ResponseWriter, r *http.Request) { v.p.ServeHTTP(w, r) }
+func (v viaProxy) Send(t, d string)                                 { v.p.SendSSE(t, d) }
 
 func (sc scenario) build() (func(), func(*vsched.Exec) string, func() string) {
 	var msg string
 	var key func() string
 	body := func() {
-		h := sse.New()
+		var h broadcaster = sse.New()
+		if sc.proxyLog != "" {
+			lvl := slog.LevelInfo
+			if sc.proxyLog == "debug" {
+				lvl = slog.LevelDebug
+			}
+			target, _ := url.Parse("http://127.0.0.1:1")
+			h = viaProxy{proxy.New(slog.New(slog.NewTextHandler(io.Discard, &slog.HandlerOptions{Level: lvl})), "127.0.0.1", 0, target)}
+		}
 		n := sc.clients
 		total := n
 		if sc.late {
@@ -76,7 +104,7 @@ func (sc scenario) build() (func(), func(*vsched.Exec) string, func() string) {
 					k += "-;"
 					continue
 				}
-				k += fmt.Sprintf("%d:%s:%v:%v;", i, strings.ReplaceAll(w.buf.String(), "\n", ""), cancelled[i], done[i])
+				k += fmt.Sprintf("%d:%s/%s:%v:%v;", i, strings.ReplaceAll(w.buf.String(), "\n", ""), strings.ReplaceAll(w.pending.String(), "\n", ""), cancelled[i], done[i])
 			}
 			return k
 		}
@@ -84,7 +112,7 @@ func (sc scenario) build() (func(), func(*vsched.Exec) string, func() string) {
 			ctx, cancel := context.WithCancel(context.Background())
 			cancels[i] = cancel
 			ws[i] = &rw{h: http.Header{}, released: &released}
-			req := httptest.NewRequest(http.MethodGet, "/", nil).WithContext(ctx)
+			req := httptest.NewRequest(http.MethodGet, "/_templ/reload/events", nil).WithContext(ctx)
 			vsched.GoNamed(fmt.Sprintf("client%d", i), func() { h.ServeHTTP(ws[i], req); done[i] = true })
 		}
 		for i := 0; i < n; i++ {
@@ -337,6 +365,8 @@ func main() {
 		{name: "2 clients, 2 broadcasts, client0 is a stalled reader", clients: 2, sends: 2, cancel: 0, stalled: true},
 		{name: "1 client + late joiner, 1 broadcast", clients: 1, sends: 1, cancel: 0, late: true},
 		{name: "churn: 2 clients, client0 leaves, a new client connects, then 1 broadcast", clients: 2, sends: 1, cancel: 0, churn: true},
+		{name: "through the proxy handler (info logging): 2 clients, 1 broadcast, client0 disconnects", clients: 2, sends: 1, cancel: 1, proxyLog: "info"},
+		{name: "through the proxy handler (debug logging): 2 clients, 1 broadcast, client0 disconnects", clients: 2, sends: 1, cancel: 1, proxyLog: "debug"},
 	}
 	if run.Thorough() {
 		scenarios = append(scenarios,
